@@ -298,7 +298,9 @@ theorem setMargins_attrs (s : Scr) (t b : Int) :
     (s.setMargins t b).wrap = s.wrap ∧ (s.setMargins t b).sty = s.sty := by
   unfold Scr.setMargins
   simp only []
-  split <;> simp
+  split
+  · simp
+  · split <;> simp
 
 /-- whatever is requested (valid, inverted, negative, beyond the screen), the margins afterwards
     satisfy `top ≤ bot < h` -/
@@ -306,6 +308,8 @@ theorem setMargins_wf (s : Scr) (t b : Int) (h : s.top ≤ s.bot ∧ s.bot < s.h
     (s.setMargins t b).top ≤ (s.setMargins t b).bot ∧ (s.setMargins t b).bot < (s.setMargins t b).h := by
   unfold Scr.setMargins clampNat
   simp only []
+  split
+  · exact h
   split
   · exact h
   · simp only []; omega
@@ -319,37 +323,60 @@ theorem setMargins_RegionOK (s : Scr) (t b : Int) (ok : RegionOK s) : RegionOK (
   rw [a.2.1]
   exact ⟨ok.1, w⟩
 
+/-- clamping to the screen is monotone: a request that is not inverted as given is not inverted
+    after clamping either (so the second test of `Scr.setMargins` never fires) -/
+theorem stbm_clamp_mono (t b : Int) (h : Nat) (hle : t ≤ b) :
+    ¬ clampNat t (h - 1) > clampNat b (h - 1) := by
+  unfold clampNat; omega
+
 /-- "the top lies below the bottom after clamping to the screen", in terms of the request:
     the (non-negative part of the) bottom is above the requested top and above the last row -/
 theorem stbm_inverted_iff (t b : Int) (h : Nat) :
     clampNat t (h - 1) > clampNat b (h - 1) ↔ (max b 0 < t ∧ max b 0 < (h : Int) - 1) := by
   unfold clampNat; omega
 
-/-- **an inverted request is ignored**: the screen is exactly what it was -/
-theorem stbm_inverted_ignored (s : Scr) (t b : Int)
-    (hinv : max b 0 < t ∧ max b 0 < (s.h : Int) - 1) : s.setMargins t b = s := by
-  have := (stbm_inverted_iff t b s.h).2 hinv
-  simp [Scr.setMargins, this]
+/-- **an inverted request is ignored**: whenever the top lies below the bottom *as requested*
+    (also when both lie beyond the screen, where clamping would make them equal) the screen is
+    exactly what it was -/
+theorem stbm_inverted_ignored_raw (s : Scr) (t b : Int) (hinv : b < t) : s.setMargins t b = s := by
+  simp [Scr.setMargins, hinv]
 
-/-- every other request installs the two values clamped to `[0, h-1]` -/
-theorem stbm_sets (s : Scr) (t b : Int) (hok : ¬ (max b 0 < t ∧ max b 0 < (s.h : Int) - 1)) :
+/-- the same in the form used below: the bottom (its non-negative part) above the top -/
+theorem stbm_inverted_ignored (s : Scr) (t b : Int)
+    (hinv : max b 0 < t ∧ max b 0 < (s.h : Int) - 1) : s.setMargins t b = s :=
+  stbm_inverted_ignored_raw s t b (by omega)
+
+/-- every request that is not inverted installs the two values clamped to `[0, h-1]` -/
+theorem stbm_sets (s : Scr) (t b : Int) (hle : t ≤ b) :
     (s.setMargins t b).top = clampNat t (s.h - 1) ∧ (s.setMargins t b).bot = clampNat b (s.h - 1) := by
-  have : ¬ clampNat t (s.h - 1) > clampNat b (s.h - 1) := fun h => hok ((stbm_inverted_iff t b s.h).1 h)
-  simp [Scr.setMargins, this]
+  have h1 : ¬ t > b := by omega
+  have h2 := stbm_clamp_mono t b s.h hle
+  simp [Scr.setMargins, h1, h2]
+
+/-- **ignored iff inverted**: the margins change only for requests with `t ≤ b` -/
+theorem stbm_ignored_iff (s : Scr) (t b : Int) (hne : (s.top, s.bot) ≠ (clampNat t (s.h - 1), clampNat b (s.h - 1))) :
+    s.setMargins t b = s ↔ b < t := by
+  constructor
+  · intro h
+    by_cases hlt : b < t
+    · exact hlt
+    · have hs := stbm_sets s t b (by omega)
+      rw [h] at hs
+      exact absurd (Prod.ext hs.1 hs.2) hne
+  · exact stbm_inverted_ignored_raw s t b
 
 /-- a valid pair is installed as given -/
 theorem stbm_valid (s : Scr) (t b : Nat) (h1 : t ≤ b) (h2 : b < s.h) :
     (s.setMargins t b).top = t ∧ (s.setMargins t b).bot = b := by
-  have hok : ¬ (max (b : Int) 0 < t ∧ max (b : Int) 0 < (s.h : Int) - 1) := by omega
-  rw [(stbm_sets s t b hok).1, (stbm_sets s t b hok).2]
+  have hle : (t : Int) ≤ b := by omega
+  rw [(stbm_sets s t b hle).1, (stbm_sets s t b hle).2]
   unfold clampNat; omega
 
-/-- a bottom beyond the screen means the last row; a top beyond the screen gives the one-row
-    region at the last row (the request is not "inverted" after clamping) -/
-theorem stbm_out_of_range (s : Scr) (t b : Int) (hb : (s.h : Int) - 1 ≤ b) :
+/-- a bottom beyond the screen means the last row; a top beyond the screen (but not below the
+    bottom) gives the one-row region at the last row -/
+theorem stbm_out_of_range (s : Scr) (t b : Int) (hb : (s.h : Int) - 1 ≤ b) (hle : t ≤ b) :
     (s.setMargins t b).top = min t.toNat (s.h - 1) ∧ (s.setMargins t b).bot = s.h - 1 := by
-  have hok : ¬ (max b 0 < t ∧ max b 0 < (s.h : Int) - 1) := by omega
-  rw [(stbm_sets s t b hok).1, (stbm_sets s t b hok).2]
+  rw [(stbm_sets s t b hle).1, (stbm_sets s t b hle).2]
   unfold clampNat; omega
 
 /-! ## 4. the implicit scroll: `lineDown` (LF, FF, IND, autowrap), `lineUp` (RI) -/
@@ -756,7 +783,7 @@ theorem decstbm_frame (cw : Nat → Nat) (t : Term) (ps : List Int) :
 
 /-- **defaults 1 and `h`**: `CSI r` selects the whole screen, `CSI a r` the rows from `a` to the
     last one -/
-theorem decstbm_default (cw : Nat → Nat) (t : Term) :
+theorem decstbm_default (cw : Nat → Nat) (t : Term) (hpos : 0 < t.scr.h) :
     (Term.apply cw t (.csi 0 [] true 0x72)).1.scr.top = 0 ∧
     (Term.apply cw t (.csi 0 [] true 0x72)).1.scr.bot = t.scr.h - 1 ∧
     ∀ a : Int, 1 ≤ a → a ≤ t.scr.h →
@@ -767,20 +794,17 @@ theorem decstbm_default (cw : Nat → Nat) (t : Term) :
   have p2 : pAt [] 1 (t.scr.h : Int) = t.scr.h := by simp [pAt]
   refine ⟨?_, ?_, ?_⟩
   · rw [p1, p2]
-    have hok : ¬ (max ((t.scr.h : Int) - 1) 0 < 1 - 1 ∧ max ((t.scr.h : Int) - 1) 0 < (t.scr.h : Int) - 1) := by
-      omega
-    rw [(stbm_sets _ _ _ hok).1]; unfold clampNat; omega
+    have hle : (1 : Int) - 1 ≤ (t.scr.h : Int) - 1 := by omega
+    rw [(stbm_sets _ _ _ hle).1]; unfold clampNat; omega
   · rw [p1, p2]
-    have hok : ¬ (max ((t.scr.h : Int) - 1) 0 < 1 - 1 ∧ max ((t.scr.h : Int) - 1) 0 < (t.scr.h : Int) - 1) := by
-      omega
-    rw [(stbm_sets _ _ _ hok).2]; unfold clampNat; omega
+    have hle : (1 : Int) - 1 ≤ (t.scr.h : Int) - 1 := by omega
+    rw [(stbm_sets _ _ _ hle).2]; unfold clampNat; omega
   · intro a h1 h2
     have q1 : pAt [a] 0 1 = a := by simp [pAt]
     have q2 : pAt [a] 1 (t.scr.h : Int) = t.scr.h := by simp [pAt]
     rw [q1, q2]
-    have hok : ¬ (max ((t.scr.h : Int) - 1) 0 < a - 1 ∧ max ((t.scr.h : Int) - 1) 0 < (t.scr.h : Int) - 1) := by
-      omega
-    rw [(stbm_sets _ _ _ hok).1, (stbm_sets _ _ _ hok).2]; unfold clampNat; omega
+    have hle : a - 1 ≤ (t.scr.h : Int) - 1 := by omega
+    rw [(stbm_sets _ _ _ hle).1, (stbm_sets _ _ _ hle).2]; unfold clampNat; omega
 
 /-- **a valid pair** `1 ≤ a ≤ b ≤ h` (1-based, as on the wire) is installed 0-based -/
 theorem decstbm_valid (cw : Nat → Nat) (t : Term) (a b : Int) (h1 : 1 ≤ a) (h2 : a ≤ b)
@@ -791,29 +815,28 @@ theorem decstbm_valid (cw : Nat → Nat) (t : Term) (a b : Int) (h1 : 1 ≤ a) (
   have q1 : pAt [a, b] 0 1 = a := by simp [pAt]
   have q2 : pAt [a, b] 1 (t.scr.h : Int) = b := by simp [pAt]
   rw [q1, q2]
-  have hok : ¬ (max (b - 1) 0 < a - 1 ∧ max (b - 1) 0 < (t.scr.h : Int) - 1) := by omega
-  rw [(stbm_sets _ _ _ hok).1, (stbm_sets _ _ _ hok).2]; unfold clampNat; omega
+  have hle : a - 1 ≤ b - 1 := by omega
+  rw [(stbm_sets _ _ _ hle).1, (stbm_sets _ _ _ hle).2]; unfold clampNat; omega
 
-/-- **an inverted pair is ignored**: when the bottom (its non-negative part) is above both the
-    top and the last row, the terminal is exactly what it was — e.g. `CSI 5 ; 3 r` on any screen
-    of more than 3 rows -/
-theorem decstbm_inverted (cw : Nat → Nat) (t : Term) (a b : Int)
-    (hinv : max (b - 1) 0 < a - 1 ∧ max (b - 1) 0 < (t.scr.h : Int) - 1) :
+/-- **an inverted pair is ignored**: whenever the requested top lies below the requested
+    bottom the terminal is exactly what it was — `CSI 5 ; 3 r` on any screen, and also
+    `CSI 30 ; 20 r` on a screen of 5 rows (both beyond the screen) -/
+theorem decstbm_inverted (cw : Nat → Nat) (t : Term) (a b : Int) (hinv : b < a) :
     Term.apply cw t (.csi 0 [a, b] true 0x72) = (t, []) := by
   have q1 : pAt [a, b] 0 1 = a := by simp [pAt]
   have q2 : pAt [a, b] 1 (t.scr.h : Int) = b := by simp [pAt]
-  rw [stbm_dispatch, q1, q2, stbm_inverted_ignored _ _ _ hinv, setScr_scr]
+  rw [stbm_dispatch, q1, q2, stbm_inverted_ignored_raw _ _ _ (by omega), setScr_scr]
 
 /-- a pair reaching beyond the screen is clamped, not rejected: bottom ≥ h means the last row -/
 theorem decstbm_out_of_range (cw : Nat → Nat) (t : Term) (a b : Int)
-    (h3 : (t.scr.h : Int) ≤ b) :
+    (h3 : (t.scr.h : Int) ≤ b) (hle : a ≤ b) :
     (Term.apply cw t (.csi 0 [a, b] true 0x72)).1.scr.top = min (a - 1).toNat (t.scr.h - 1) ∧
     (Term.apply cw t (.csi 0 [a, b] true 0x72)).1.scr.bot = t.scr.h - 1 := by
   simp only [stbm_dispatch, scr_setScr]
   have q1 : pAt [a, b] 0 1 = a := by simp [pAt]
   have q2 : pAt [a, b] 1 (t.scr.h : Int) = b := by simp [pAt]
   rw [q1, q2]
-  exact stbm_out_of_range _ _ _ (by omega)
+  exact stbm_out_of_range _ _ _ (by omega) (by omega)
 
 /-! ### LF, FF, IND, RI as tokens -/
 
@@ -1313,8 +1336,11 @@ example : (Term.apply cw1 demoT (.esc [] 0x4d)).1.scr.grid = demo.grid := by dec
 example : (Term.apply cw1 demoT (.csi 0 [4, 2] true 0x72)).1.scr = demo := by decide
 example : ((Term.apply cw1 demoT (.csi 0 [2, 3] true 0x72)).1.scr.top,
            (Term.apply cw1 demoT (.csi 0 [2, 3] true 0x72)).1.scr.bot) = (1, 2) := by decide
+-- inverted although both margins lie beyond the screen: ignored (the margins stay 1..3)
 example : ((Term.apply cw1 demoT (.csi 0 [9, 7] true 0x72)).1.scr.top,
-           (Term.apply cw1 demoT (.csi 0 [9, 7] true 0x72)).1.scr.bot) = (4, 4) := by decide
+           (Term.apply cw1 demoT (.csi 0 [9, 7] true 0x72)).1.scr.bot) = (1, 3) := by decide
+example : ((Term.apply cw1 demoT (.csi 0 [7, 9] true 0x72)).1.scr.top,
+           (Term.apply cw1 demoT (.csi 0 [7, 9] true 0x72)).1.scr.bot) = (4, 4) := by decide
 example : (Term.apply cw1 demoT (.text [0x78] 0x78)).1.scr.grid =
     [rowOf 0x61, rowOf 0x63,
      [⟨.ch [0x64] 1, Style.default⟩, ⟨.ch [0x64] 1, Style.default⟩, ⟨.ch [0x78] 1, Style.default⟩],
@@ -1336,7 +1362,7 @@ example := il_dl_big cw1 demoT [1] 0x4d (Or.inr rfl) (RegionOK_of_inv _ (by deci
 example := stbm_inverted_ignored demo 3 1 (by decide)
 example := decstbm_inverted cw1 demoT 4 2 (by decide)
 example := decstbm_valid cw1 demoT 2 3 (by decide) (by decide) (by decide)
-example := decstbm_out_of_range cw1 demoT 9 7 (by decide)
+example := decstbm_out_of_range cw1 demoT 7 9 (by decide) (by decide)
 example := lineDown_scrolls demo (RegionOK_of_inv _ (by decide)) (by decide) 2
 example := lineDown_moves demoOut (by decide)
 example := lineUp_scrolls { demo with cy := 1 } (RegionOK_of_inv _ (by decide)) (by decide) 2
@@ -1376,6 +1402,9 @@ end TM.C06
 #print axioms TM.C06.setMargins_wf
 #print axioms TM.C06.stbm_inverted_iff
 #print axioms TM.C06.stbm_inverted_ignored
+#print axioms TM.C06.stbm_inverted_ignored_raw
+#print axioms TM.C06.stbm_ignored_iff
+#print axioms TM.C06.stbm_clamp_mono
 #print axioms TM.C06.stbm_sets
 #print axioms TM.C06.stbm_valid
 #print axioms TM.C06.stbm_out_of_range
